@@ -471,7 +471,7 @@ pub fn run(tier: Tier, seed: u64) -> i32 {
   let mut report = Report::new("C14", tier, seed, "exploration", rule);
   let known = Known::load("C14");
   super::prologue(&mut report, &known);
-  let (shards, cases, max) = match tier { Tier::Quick => (8, 4000, 24), Tier::Thorough => (16, 40000, 60) };
+  let (shards, cases, max) = match tier { Tier::Quick => (16, 4000, 24), Tier::Thorough => (16, 40000, 60) };
   let cfg = SearchCfg { prop: "C14", label: "ops", seed, shards, cases_per_shard: cases, max_shrink_iters: 3000 };
   let (stats, found) = driver::search(&cfg, &known, || strategy(max), |c, s| check(c, s), |c| format!("{:?}", c.ops));
   report.absorb("ops", stats, found);
